@@ -476,7 +476,7 @@ func ruleKeys(e *Env, rule string, strict bool) {
 				}
 			case flow.InRepo(call.Call.StaticCallee()):
 				normaliser = flow.FnName(call.Call.StaticCallee())
-				if ok, why := asciiLowerOnly(e, flow.Origin(call.Call.StaticCallee())); !ok {
+				if ok, why := asciiLowerOnly(e, flow.Origin(call.Call.StaticCallee()), max(len(kv), len(ku))); !ok {
 					lowered = false
 					notASCII = why
 				}
@@ -506,9 +506,10 @@ func ruleKeys(e *Env, rule string, strict bool) {
 }
 
 // asciiLowerOnly: fn(s string) string maps A–Z to a–z and every other byte to itself. fn is evaluated on a
-// one-byte text for each of the 26 letters and for an opaque byte of each of the two gaps (that all positions are
-// treated alike is the shape of its range loop).
-func asciiLowerOnly(e *Env, fn *ssa.Function) (bool, string) {
+// one-byte text and on a text of `positions` bytes, the examined byte at each position in turn, for each of the 26
+// letters and for an opaque byte of each of the two gaps. Only texts as long as a key constant can equal it, so
+// positions = the longest key is every position that matters.
+func asciiLowerOnly(e *Env, fn *ssa.Function, positions int) (bool, string) {
 	if len(fn.Params) != 1 || len(fn.Blocks) == 0 {
 		return false, "not a function of one string"
 	}
@@ -518,44 +519,69 @@ func asciiLowerOnly(e *Env, fn *ssa.Function) (bool, string) {
 		classes = append(classes, class{c, c})
 	}
 	classes = append(classes, class{'Z' + 1, 255})
+	// the byte of each class alone, and at the first, middle and last position of a three-byte text between two bytes
+	// that must stay as they are: the treatment of a byte does not depend on where it stands
+	type layout struct{ n, at int }
+	layouts := []layout{{1, 0}}
+	for at := 0; at < positions; at++ {
+		layouts = append(layouts, layout{positions, at})
+	}
 	for _, cl := range classes {
-		cl := cl
-		var elem pred.Val = pred.Sym{Name: "b"}
-		if cl.lo == cl.hi {
-			elem = pred.Const{V: constant.MakeInt64(cl.lo)}
-		}
-		cell := &pred.Cell{V: elem, Name: "byte"}
-		fixed := func(a, b pred.Val) (int, bool, bool) {
-			if sy, ok := a.(pred.Sym); ok && sy.Name == "b" {
-				if c, ok := b.(pred.Const); ok && c.V != nil && c.V.Kind() == constant.Int {
-					k, _ := constant.Int64Val(c.V)
-					switch {
-					case k < cl.lo:
-						return 1, true, true
-					case k > cl.hi:
-						return -1, true, true
+		for _, ly := range layouts {
+			cl, ly := cl, ly
+			var elem pred.Val = pred.Sym{Name: "b"}
+			if cl.lo == cl.hi {
+				elem = pred.Const{V: constant.MakeInt64(cl.lo)}
+			}
+			cell := &pred.Cell{V: elem, Name: "byte"}
+			var cells []*pred.Cell
+			for i := 0; i < ly.n; i++ {
+				if i == ly.at {
+					cells = append(cells, cell)
+				} else {
+					cells = append(cells, &pred.Cell{V: pred.Const{V: constant.MakeInt64('-')}, Name: "byte"})
+				}
+			}
+			fixed := func(a, b pred.Val) (int, bool, bool) {
+				if sy, ok := a.(pred.Sym); ok && sy.Name == "b" {
+					if c, ok := b.(pred.Const); ok && c.V != nil && c.V.Kind() == constant.Int {
+						k, _ := constant.Int64Val(c.V)
+						switch {
+						case k < cl.lo:
+							return 1, true, true
+						case k > cl.hi:
+							return -1, true, true
+						}
+					}
+				}
+				return 0, false, false
+			}
+			o := &treeOracle{assign: map[string]int{}, fixed: fixed, keyOf: func(a, b pred.Val) (string, bool) { return "", false }}
+			ev := &pred.Evaluator{Prog: e.P.SSA, Oracle: o, GlobalInit: e.globalTables()}
+			out, err := ev.Eval(fn, []pred.Val{&pred.SliceV{Elems: cells}})
+			if err != nil {
+				return false, "not evaluable byte by byte: " + err.Error()
+			}
+			res, ok := out.Ret.(*pred.SliceV)
+			if !ok || len(res.Elems) != ly.n {
+				return false, fmt.Sprintf("returns %v for a %d-byte text", out.Ret, ly.n)
+			}
+			where := fmt.Sprintf(" (position %d of %d)", ly.at, ly.n)
+			for i, c := range res.Elems {
+				if i != ly.at {
+					if k, ok := intOf(c.V); !ok || k != '-' {
+						return false, fmt.Sprintf("the byte '-' next to the examined one is rewritten to %v%s", c.V, where)
 					}
 				}
 			}
-			return 0, false, false
-		}
-		o := &treeOracle{assign: map[string]int{}, fixed: fixed, keyOf: func(a, b pred.Val) (string, bool) { return "", false }}
-		ev := &pred.Evaluator{Prog: e.P.SSA, Oracle: o, GlobalInit: e.globalTables()}
-		out, err := ev.Eval(fn, []pred.Val{&pred.SliceV{Elems: []*pred.Cell{cell}}})
-		if err != nil {
-			return false, "not evaluable byte by byte: " + err.Error()
-		}
-		res, ok := out.Ret.(*pred.SliceV)
-		if !ok || len(res.Elems) != 1 {
-			return false, fmt.Sprintf("returns %v for a one-byte text", out.Ret)
-		}
-		got := res.Elems[0].V
-		if cl.lo == cl.hi {
-			if k, ok := intOf(got); !ok || k != cl.lo+32 {
-				return false, fmt.Sprintf("%q is mapped to %v, not to %q", rune(cl.lo), got, rune(cl.lo+32))
+			got := res.Elems[ly.at].V
+			if cl.lo == cl.hi {
+				if k, ok := intOf(got); !ok || k != cl.lo+32 {
+					return false, fmt.Sprintf("%q is mapped to %v, not to %q%s", rune(cl.lo), got, rune(cl.lo+32), where)
+				}
+			} else if got.String() != "b" {
+				return false, fmt.Sprintf("bytes %#x..%#x are rewritten (to %v)%s", cl.lo, cl.hi, got, where)
 			}
-		} else if got.String() != "b" {
-			return false, fmt.Sprintf("bytes %#x..%#x are rewritten (to %v)", cl.lo, cl.hi, got)
 		}
 	}
 	return true, ""
